@@ -309,11 +309,17 @@ def judge_success(res, case, rec):
         return
     # the table the peer ends with: session continuity matters
     want = {canon(p): (nh, m) for p, nh, m in case['new']}
+    removed_by_reload = set()
     for p, nh, m in case['api_routes']:
         cp = canon(p)
         collides_changed = cp in want and dict((canon(a), (b, c)) for a, b, c in case['old']).get(cp) != want[cp]
         if cp in want and collides_changed:
             continue  # the configuration changed that prefix on reload: the later operation wins
+        if cp not in want and cp in {canon(a) for a, _, _ in case['old']}:
+            # the reload REMOVED a configured prefix which an API route had overwritten: the reload is the later operation on
+            # that prefix (assumption 2), a withdrawal is as defensible as keeping the API route - not judged
+            removed_by_reload.add(cp)
+            continue
         want[cp] = (nh, m)
     if 'second' in marks and marks['second'].get('session') is not None:
         # re-established: the peer flushed its table, only the new session counts
@@ -331,6 +337,9 @@ def judge_success(res, case, rec):
             if canon(p) not in {canon(x[0]) for x in case['new']}:
                 want.pop(canon(p), None)
                 got.pop(canon(p), None)
+    for cp in removed_by_reload:
+        got.pop(cp, None)
+        res.count('api-route-on-a-prefix-the-reload-removed-not-judged')
     wit['peer_table'] = sorted(got.items())[:20]
     wit['expected_table'] = sorted(want.items())[:20]
     missing = sorted(set(want) - set(got))
@@ -362,7 +371,7 @@ def judge_success(res, case, rec):
                 if m:
                     reported[canon(m.group(1))] = (m.group(2), int(m.group(3)) if m.group(3) else None)
         rmissing = sorted(p for p in want if p not in reported and p not in collide)
-        rextra = sorted(p for p in reported if p not in want)
+        rextra = sorted(p for p in reported if p not in want and p not in removed_by_reload)
         wit['reported_adj_rib_out'] = sorted(reported.items())[:20]
         if rmissing:
             src = 'api' if rmissing[0] in {canon(p) for p, _, _ in case['api_routes']} else 'config'
@@ -548,7 +557,14 @@ def run_daemon(desc):
                 if any(t in (3, None) for t, _ in got):
                     res.violation(f'C17/daemon:session-lost-by-a-refused-file:{bk}', f'the session ended after SIGUSR1 with a broken file ({bk} at line {bline})', dict(wit, log=d.tail(500)), cls)
                     continue
-                if table_of(rx) != t0:
+                t1 = table_of(rx)
+                newv = {canon(p): (nh, m) for p, nh, m in new}
+                if t1 != t0 and not (set(t0) - set(t1)) and all(t1[p] == newv.get(p) for p in t1 if t1[p] != t0.get(p)):
+                    # the recorded mechanism, seen from outside: nothing the old file announced is lost, what changed are
+                    # routes of the refused file (its neighbor section was parsed completely before the refusal)
+                    res.violation('C17/refused-file-routes-reach-live-rib', f'routes of a refused file ({bk} at line {bline}) were announced to the peer of the real daemon: ' + str(sorted((p, t1[p]) for p in t1 if t1[p] != t0.get(p))[:3]), dict(wit, before=sorted(t0.items()), after=sorted(t1.items())), cls)
+                    continue
+                if t1 != t0:
                     res.violation(f'C17/daemon:refused-file-changed-the-peer-table:{bk}', f'after SIGUSR1 with a broken file ({bk} at line {bline}) the peer table changed', dict(wit, before=sorted(t0.items()), after=sorted(table_of(rx).items())), cls)
                     continue
                 if not d.alive():
